@@ -1090,3 +1090,79 @@ package zygo
 //@ C15 loop 0 invariant shape: env.datastack == old(env.datastack) && wfs(env.datastack) && env.datastack.tos <= old(env.datastack.tos) && env.datastack.tos >= 0 - 1 && env.pc == old(env.pc)
 //@ C15 loop 0 invariant no-marker-above: forall(k, env.datastack.tos < k && k <= old(env.datastack.tos) ==> old(env.datastack.elements[k].(DataStackElem).expr) != SexpMarker)
 //@ C15 loop 0 invariant below-kept: forall(k, 0 <= k && k <= env.datastack.tos ==> env.datastack.elements[k] == old(env.datastack.elements[k]))
+
+// ===========================================================================
+// C06  infix: binding powers and associativity
+// ===========================================================================
+// operator builders: the operator is registered under its name with the given binding
+// power; a left-associative operator parses its right operand with the same power, a
+// right-associative one with one less; the result is the prefix form (op left right)
+//@ func (*Zlisp).Infix
+//@ C06 ensures registered: fresh(r0) && r0.Bp == bp && has(env.infixOps, op) && env.infixOps[op] == r0 && !r0.IsAssign
+//@ func (*Zlisp).Infixr
+//@ C06 ensures registered: fresh(r0) && r0.Bp == bp && has(env.infixOps, op) && env.infixOps[op] == r0 && !r0.IsAssign
+//@ func (*Zlisp).Prefix
+//@ C06 ensures registered: fresh(r0) && r0.Bp == bp && has(env.infixOps, op) && env.infixOps[op] == r0 && !r0.IsAssign
+//@ func (*Zlisp).Assignment
+//@ C06 ensures registered: fresh(r0) && r0.Bp == bp && has(env.infixOps, op) && env.infixOps[op] == r0 && r0.IsAssign
+//@ func (*Zlisp).PostfixAssign
+//@ C06 ensures registered: fresh(r0) && r0.Bp == bp && has(env.infixOps, op) && env.infixOps[op] == r0
+//@ func (*Zlisp).Infix$1
+//@ ghost rhs := ret0 @after call Expression[0]
+//@ C06 assert left-associative @before call Expression[0]: arg0 == pr && arg2 == bp
+//@ C06 assert builds-prefix-form @before call MakeList[0]: len(arg0) == 3 && arg0[0] == oper && arg0[1] == left && arg0[2] == rhs
+//@ func (*Zlisp).Infixr$1
+//@ ghost rhs := ret0 @after call Expression[0]
+//@ C06 assert right-associative @before call Expression[0]: arg0 == pr && arg2 == bp - 1
+//@ C06 assert builds-prefix-form @before call MakeList[0]: len(arg0) == 3 && arg0[0] == oper && arg0[1] == left && arg0[2] == rhs
+//@ func (*Zlisp).Assignment$1
+//@ ghost rhs := ret0 @after call Expression[0]
+//@ C06 assert right-associative @before call Expression[0]: arg0 == pr && arg2 == bp - 1
+//@ C06 assert builds-prefix-form @before call MakeList[0]: len(arg0) == 3 && arg0[1] == left && arg0[2] == rhs
+//@ func (*Zlisp).Prefix$1
+//@ ghost rhs := ret0 @after call Expression[0]
+//@ C06 assert binds-its-operand @before call Expression[0]: arg0 == pr && arg2 == bp
+//@ C06 assert builds-prefix-form @before call MakeList[0]: len(arg0) == 2 && arg0[0] == oper && arg0[1] == rhs
+
+// the table: one power per operator class, classes ordered as documented
+//@ func (*Zlisp).InitInfixOps
+//@ ghost bpAdd := 0 @entry
+//@ ghost bpMul := 0 @entry
+//@ ghost bpCmp := 0 @entry
+//@ ghost bpComma := 0 @entry
+//@ ghost bpDot := 0 @entry
+//@ ghost bpPow := 0 @entry
+//@ ghost bpAndOr := 0 @entry
+//@ ghost bpNot := 0 @entry
+//@ ghost bpAssign := 0 @entry
+//@ ghost bpAdd := ite(arg1 == "+", arg2, bpAdd) @before call Infix[*]
+//@ ghost bpMul := ite(arg1 == "*", arg2, bpMul) @before call Infix[*]
+//@ ghost bpCmp := ite(arg1 == "==", arg2, bpCmp) @before call Infix[*]
+//@ ghost bpComma := ite(arg1 == "comma", arg2, bpComma) @before call Infix[*]
+//@ ghost bpDot := ite(arg1 == ".", arg2, bpDot) @before call Infix[*]
+//@ ghost bpPow := ite(arg1 == "**", arg2, bpPow) @before call Infixr[*]
+//@ ghost bpAndOr := ite(arg1 == "and", arg2, bpAndOr) @before call Infixr[*]
+//@ ghost bpNot := ite(arg1 == "not", arg2, bpNot) @before call Prefix[*]
+//@ ghost bpAssign := ite(arg1 == "=", arg2, bpAssign) @before call Assignment[*]
+//@ C06 assert additive-class @before call Infix[*]: arg1 == "-" ==> arg2 == bpAdd
+//@ C06 assert multiplicative-class @before call Infix[*]: arg1 == "/" || arg1 == "mod" ==> arg2 == bpMul
+//@ C06 assert comparison-class @before call Infix[*]: arg1 == "!=" || arg1 == ">" || arg1 == ">=" || arg1 == "<" || arg1 == "<=" ==> arg2 == bpCmp
+//@ C06 assert logical-class @before call Infixr[*]: arg1 == "or" ==> arg2 == bpAndOr
+//@ C06 assert assignment-class @before call Assignment[*]: arg2 == bpAssign
+//@ C06 assert assignment-class @before call PostfixAssign[*]: arg2 == bpAssign
+//@ C06 ensures documented-order: 0 < bpAssign && bpAssign - 1 > 0 && bpAssign < bpComma && bpComma < bpAndOr - 1 && bpAndOr < bpCmp && bpCmp < bpAdd && bpAdd < bpMul && bpMul < bpPow - 1 && bpPow < bpNot && bpNot < bpDot
+//@ C06 ensures hard-wired-powers-agree: bpDot == 80 && bpComma == 15
+
+// the hard-wired left binding powers: literals and separators never bind, arrays and
+// dotted names bind like indexing, a comma like the comma operator, an operator as registered
+//@ func (*Zlisp).LeftBindingPower
+//@ C06 pure
+//@ C06 ensures operator-as-registered: typeis(sx, *SexpSymbol) && sx.(*SexpSymbol).name != "if" && has(env.infixOps, sx.(*SexpSymbol).name) ==> r1 == nil && r0 == env.infixOps[sx.(*SexpSymbol).name].Bp
+//@ C06 ensures if-never-binds-left: typeis(sx, *SexpSymbol) && sx.(*SexpSymbol).name == "if" ==> r1 == nil && r0 == 0
+//@ C06 ensures indexing: typeis(sx, *SexpArray) || (typeis(sx, *SexpSymbol) && sx.(*SexpSymbol).name != "if" && !has(env.infixOps, sx.(*SexpSymbol).name) && sx.(*SexpSymbol).isDot) ==> r1 == nil && r0 == 80
+//@ C06 ensures comma: typeis(sx, *SexpComma) ==> r1 == nil && r0 == 15
+//@ C06 ensures operands-and-separators: typeis(sx, *SexpInt) || typeis(sx, *SexpFloat) || typeis(sx, *SexpBool) || typeis(sx, *SexpStr) || typeis(sx, *SexpSemicolon) || typeis(sx, *SexpPair) || typeis(sx, *SexpHash) ==> r1 == nil && r0 == 0
+
+// the precedence loop: an operator is consumed only when it binds tighter than the caller's power
+//@ func (*Pratt).Expression
+//@ C06 assert consumes-only-tighter @before call MunchLeft[0]: rbp < nextLbp && arg1 == p && arg2 == p.AccumTree
